@@ -19,6 +19,8 @@ structure Mon where
   H : C06.History := []
   S : List Region := []
   M : List (Nat × Meta) := []
+  /-- the heartbeats that are held at their first storage write (from the op lines) -/
+  held : List (Nat × Region) := []
 
 structure DState where
   model : Cluster := {}
@@ -26,6 +28,10 @@ structure DState where
   /-- after a batch of concurrent heartbeats the model has no single successor state: it follows the
       implementation's report (the monitor judges the batch) -/
   desync : Bool := false
+  /-- `reset leveldb`: the region storage with its write batch (`M` = what is on disk) -/
+  rs : Option RegionStorage := none
+  /-- model side of the held heartbeats: (stream, region, saveKV, displaced regions) -/
+  held : List (Nat × Region × Bool × List Region) := []
 
 /-- the fields the trace shows (what the monitor compares) -/
 def norm (r : Region) : Region := { r with down := [], keys := 0, written := 0, read := 0, repl := (0, 0) }
@@ -39,6 +45,53 @@ def sortMetas (l : List (Nat × Meta)) : List (Nat × Meta) :=
 
 def renderState (c : Cluster) : String :=
   s!"S={renderRegionList (served c)} M={renderMetaList (sortMetas c.storage)}"
+
+/-- what `LoadRegions` / `LoadRegion` read: the disk of the region storage when there is one -/
+def diskOf (d : DState) : List (Nat × Meta) :=
+  match d.rs with
+  | some rs => rs.disk
+  | none => d.model.storage
+
+def renderStateD (d : DState) : String :=
+  s!"S={renderRegionList (served d.model)} M={renderMetaList (sortMetas (diskOf d))}"
+
+/-- served-set complaints shared by all kinds of steps -/
+def explainServed (m : Mon) (r : Region) (S' : List Region) : List String :=
+  let f1 := if decide (C06.NoOverlap S') then [] else [s!"sig=C06.served-regions-overlap after-region={r.id}"]
+  let f2 := S'.filterMap (fun y =>
+    match C06.lastServed m.H y.id with
+    | some o =>
+      if decide (C06.NotBehind o y) then none
+      else if m.S.any (fun z => z.id = y.id) then
+        some s!"sig=C06.served-epoch-regressed id={y.id} from={o.version}.{o.confVer}.{o.term} to={y.version}.{y.confVer}.{y.term}"
+      else
+        some s!"sig=C06.served-epoch-regressed-after-displacement id={y.id} from={o.version}.{o.confVer}.{o.term} to={y.version}.{y.confVer}.{y.term}"
+    | none => none)
+  f1 ++ f2
+
+/-- explain a failed `StepOkBatched` -/
+def explainBatched (m : Mon) (r : Region) (v : C06.Verdict) (S' : List Region) (M' : List (Nat × Meta)) : List String :=
+  let f3 := if decide (C06.MustReject m.S r) && v != .stale then
+      [s!"sig=C06.stale-heartbeat-accepted region={r.id} epoch={r.version}.{r.confVer}.{r.term}"] else []
+  let f4 := if v == .stale && (S' != m.S || M' != m.M) then
+      [s!"sig=C06.rejected-heartbeat-changed-state region={r.id}"] else []
+  let bad := fun (gone : List Region) =>
+    if !decide (∀ y ∈ gone, C06.lookup M' y.id = none) then
+      [s!"sig=C06.displaced-region-left-in-storage region={r.id} displaced={renderIds gone} (region storage with write batch)"]
+    else if decide (C06.StoredOkBatched S' m.M M' gone) then []
+    else [s!"sig=C06.disk-changed-for-a-region-not-served region={r.id}"]
+  let f5 := if v == .ok then
+      if S' = m.S then bad []
+      else if S' = C07.put m.S r then bad (C07.displaced m.S r)
+      else [s!"sig=C06.served-set-is-not-old-set-with-region-put region={r.id}"]
+    else []
+  explainServed m r S' ++ f3 ++ f4 ++ f5
+
+def gateOutOf : String → Option C06.GateOut
+  | "parked" => some .parked
+  | "ok" => some (.done .ok)
+  | "stale" => some (.done .stale)
+  | _ => none
 
 /-- `<verdicts> S=<..> M=<..>` -/
 def parseObs (impl : String) : String × List Region × List (Nat × Meta) :=
@@ -89,25 +142,110 @@ def splitBar (ws : List String) : List (List String) :=
 def step (d : DState) (opLine : String) (impl : String) : DState × StepOut :=
   match words opLine with
   | ["reset"] => ({}, { model := "ok" })
+  | ["reset", "leveldb"] => ({ rs := some {} }, { model := "ok" })
   | "hb" :: spec =>
     match parseHeartbeatX spec with
     | none => (d, { model := "bad-op" })
     | some hb =>
       let r := regionFromHeartbeat hb
+      let w := heartbeatWrites d.model r
       let (c', v) := heartbeat d.model r
+      let rs' := d.rs.map (fun rs => rs.apply r w)
       let (vi, S', M') := parseObs impl
       -- monitor
       let (fails, mon') :=
         match verdictOf vi with
         | some v' =>
-          let ok := decide (C06.StepOk d.mon.H d.mon.S d.mon.M (norm r) v' S' M')
-          let fs := if ok then [] else
-            let e := explainStep d.mon (norm r) v' S' M'
-            if e.isEmpty then [s!"sig=C06.step-not-ok region={r.id}"] else e
-          (fs, { H := C06.record d.mon.H S', S := S', M := M' })
+          let fs :=
+            if d.rs.isSome then
+              if decide (C06.StepOkBatched d.mon.H d.mon.S d.mon.M (norm r) v' S' M') then [] else
+                let e := explainBatched d.mon (norm r) v' S' M'
+                if e.isEmpty then [s!"sig=C06.step-not-ok region={r.id}"] else e
+            else if decide (C06.StepOk d.mon.H d.mon.S d.mon.M (norm r) v' S' M') then [] else
+              let e := explainStep d.mon (norm r) v' S' M'
+              if e.isEmpty then [s!"sig=C06.step-not-ok region={r.id}"] else e
+          (fs, { d.mon with H := C06.record d.mon.H S', S := S', M := M' })
         | none => ([s!"sig=C06.unexpected-answer answer={vi}"], d.mon)
-      let out := if d.desync then impl else s!"{vstr v} {renderState c'}"
-      ({ d with model := c', mon := mon' }, { model := out, fails := fails })
+      let d' := { d with model := c', rs := rs', mon := mon' }
+      let out := if d.desync then impl else s!"{vstr v} {renderStateD d'}"
+      (d', { model := out, fails := fails })
+  | ["flush"] =>
+    let d' := { d with rs := d.rs.map (·.flush) }
+    match words impl with
+    | ["ok", m] =>
+      let M' := parseMetaList (m.drop 2).toString
+      let fails := if decide (C06.FlushOk d.mon.S d.mon.M M') then [] else
+        ["sig=C06.flush-deleted-or-wrote-a-region-not-served"]
+      ({ d' with mon := { d.mon with M := M' } },
+        { model := if d.desync then impl else s!"ok M={renderMetaList (sortMetas (diskOf d'))}", fails := fails })
+    | _ => (d', { model := "ok", fails := [s!"sig=C06.unexpected-answer answer={impl}"] })
+  | ["reload"] =>
+    (d, { model := if d.desync then impl else
+      s!"R={renderIds ((scanRange (reload (sortMetas (diskOf d))) [] [] 0).filterMap id)}" })
+  | "ghb" :: i :: spec =>
+    match parseHeartbeatX spec with
+    | none => (d, { model := "bad-op" })
+    | some hb =>
+      let r := regionFromHeartbeat hb
+      -- model: run up to the first storage write
+      let w := heartbeatWrites d.model r
+      let (pre, v0) := (preCheckPutRegion d.model.ri r)
+      let f := computeFlags pre r
+      let ignored := !f.saveKV && !f.saveCache && !f.isNew
+      let (c1, mout, held') : Cluster × String × List (Nat × Region × Bool × List Region) :=
+        match v0 with
+        | Verdict.stale => (d.model, "stale", d.held)
+        | Verdict.ok =>
+          if ignored then (d.model, "ok", d.held)
+          else
+            let cm : Cluster × Verdict × List Region :=
+              if f.saveCache then commit d.model r else (d.model, Verdict.ok, [])
+            let c1 := cm.1
+            match cm.2.1 with
+            | Verdict.stale => (c1, "stale", d.held)
+            | Verdict.ok =>
+              if w.1 || !w.2.isEmpty then (c1, "parked", (natArg i, r, w.1, w.2) :: d.held)
+              else (c1, "ok", d.held)
+      let (oi, S', M') := parseObs impl
+      let (fails, mon') :=
+        match gateOutOf oi with
+        | some o =>
+          let fs := if decide (C06.GateOk d.mon.H d.mon.S d.mon.M (norm r) o S' M') then [] else
+            let e := explainServed d.mon (norm r) S' ++
+              (if M' != d.mon.M then [s!"sig=C06.held-heartbeat-wrote-storage region={r.id}"] else []) ++
+              (if decide (C06.MustReject d.mon.S (norm r)) && o != .done .stale then
+                [s!"sig=C06.stale-heartbeat-accepted region={r.id} epoch={r.version}.{r.confVer}.{r.term}"] else []) ++
+              (if o == .done .stale && S' != d.mon.S then [s!"sig=C06.rejected-heartbeat-changed-state region={r.id}"] else []) ++
+              (if o != .done .stale && S' != d.mon.S && S' != C07.put d.mon.S (norm r) then
+                [s!"sig=C06.served-set-is-not-old-set-with-region-put region={r.id}"] else [])
+            if e.isEmpty then [s!"sig=C06.gate-step-not-ok region={r.id}"] else e
+          (fs, { d.mon with H := C06.record d.mon.H S', S := S', M := M',
+                            held := if o == .parked then (natArg i, norm r) :: d.mon.held else d.mon.held })
+        | none => ([s!"sig=C06.unexpected-answer answer={oi}"], d.mon)
+      let d' := { d with model := c1, held := held', mon := mon' }
+      (d', { model := if d.desync then impl else s!"{mout} {renderStateD d'}", fails := fails })
+  | ["release", i] =>
+    let (vi, S', M') := parseObs impl
+    -- monitor (the held region comes from the earlier op line)
+    let (fails, mon') :=
+      match d.mon.held.find? (fun (e : Nat × Region) => e.1 = natArg i), verdictOf vi with
+      | some (_, r), some v' =>
+        let fs := if decide (C06.ReleaseOk d.mon.H d.mon.S d.mon.M r v' S' M') then [] else
+          let e := explainServed d.mon r S' ++
+            (if v' == .stale && (S' != d.mon.S || M' != d.mon.M) then
+              [s!"sig=C06.rejected-heartbeat-changed-state region={r.id} (held at its first storage write, answered with an error after it)"] else []) ++
+            (if v' == .ok && S' != d.mon.S && S' != C07.put d.mon.S r then
+              [s!"sig=C06.served-set-is-not-old-set-with-region-put region={r.id}"] else [])
+          if e.isEmpty then [s!"sig=C06.release-step-not-ok region={r.id}"] else e
+        (fs, { d.mon with H := C06.record d.mon.H S', S := S', M := M',
+                          held := d.mon.held.filter (fun (e : Nat × Region) => e.1 ≠ natArg i) })
+      | _, _ => ([s!"sig=C06.unexpected-answer answer={vi}"], d.mon)
+    match d.held.find? (fun (e : Nat × Region × Bool × List Region) => e.1 = natArg i) with
+    | some (_, r, saveKV, ov) =>
+      let c' := store d.model r saveKV ov
+      let d' := { d with model := c', held := d.held.filter (fun (e : Nat × Region × Bool × List Region) => e.1 ≠ natArg i), mon := mon' }
+      (d', { model := if d.desync then impl else s!"ok {renderStateD d'}", fails := fails })
+    | none => ({ d with mon := mon' }, { model := if d.desync then impl else "bad-op", fails := fails })
   | "conc" :: rest =>
     let specs := splitBar rest
     let hbs := specs.filterMap parseHeartbeatX
@@ -135,7 +273,7 @@ def step (d : DState) (opLine : String) (impl : String) : DState × StepOut :=
         f1 ++ f2 ++ f3
       -- the model cannot know the schedule: it adopts the reported state (served set only; the storage of
       -- the model is no longer compared until the next reset)
-      ({ d with mon := { H := C06.record d.mon.H S', S := S', M := M' }, desync := true },
+      ({ d with mon := { d.mon with H := C06.record d.mon.H S', S := S', M := M' }, desync := true },
         { model := impl, fails := fails })
   | ["get", id] =>
     (d, { model := if d.desync then impl else renderOpt ((getRegionC d.model (natArg id)).map norm) })
@@ -143,7 +281,7 @@ def step (d : DState) (opLine : String) (impl : String) : DState × StepOut :=
     (d, { model := if d.desync then impl else renderOpt ((getRegionByKey d.model (parseKey k)).map norm) })
   | ["load", id] =>
     (d, { model := if d.desync then impl else
-      match loadRegion d.model (natArg id) with
+      match mapGet (diskOf d) (natArg id) with
       | some m => renderMeta m
       | none => "nil" })
   | _ => (d, { model := "bad-op" })
